@@ -391,11 +391,12 @@ def Vec.relax (v : Vec) (i : Nat) (x : Option Int) : Vec :=
 def relaxNull (g : Fsg) (v : Vec) : Vec :=
   (nullLinks g).foldl (fun acc l => acc.relax l.dst (oadd (acc.get l.src) l.logp)) v
 
-def iter {α : Type} (f : α → α) : Nat → α → α
-  | 0, x => x
-  | n + 1, x => iter f n (f x)
-
-def nullClose (g : Fsg) (n : Nat) (v : Vec) : Vec := iter (relaxNull g) n v
+/-- at most `n` Bellman–Ford rounds, stopping at the first round that changes nothing -/
+def nullClose (g : Fsg) : Nat → Vec → Vec
+  | 0, v => v
+  | n + 1, v =>
+    let v' := relaxNull g v
+    if v' == v then v else nullClose g n v'
 
 def stepWord (g : Fsg) (n : Nat) (v : Vec) (w : Nat) : Vec :=
   (g.links.filter fun l => l.wid == some w).foldl
